@@ -217,6 +217,29 @@ class Exec:
         for r in self.contract.requires:
             st.assume(self.eval_spec(r, st, role='hyp'))
         self.entry = st.copy()
+        if self.contract.frame:
+            stored = set()
+            for n in ast.walk(fnode):
+                tg = []
+                if isinstance(n, ast.Assign):
+                    tg = n.targets
+                elif isinstance(n, (ast.AugAssign, ast.AnnAssign)):
+                    tg = [n.target]
+                elif isinstance(n, ast.Call) and isinstance(n.func, ast.Name) and n.func.id in ('setattr', 'delattr'):
+                    stored.add('<setattr>')
+                elif isinstance(n, ast.Delete):
+                    tg = n.targets
+                for t in tg:
+                    for e in ast.walk(t):
+                        if isinstance(e, ast.Attribute) and isinstance(e.ctx, (ast.Store, ast.Del)):
+                            stored.add(e.attr)
+            extra = sorted(stored - set(self.contract.frame))
+            vc = self.emit(st, 'frame-fields', z3.BoolVal(not extra), fnode,
+                           'object fields assigned in the body %s are within the declared frame %s'
+                           % (sorted(stored), sorted(self.contract.frame)))
+            if extra and vc is not None:
+                vc.result, vc.solver, vc.ms = 'sat', 'syntactic-scan', 0
+                vc.model = {'fields assigned outside the frame': extra}
         outs = self.exec_block(fnode.body, st)
         for s, oc in outs:
             self.finish_path(s, oc, fnode)
@@ -1489,10 +1512,17 @@ class Exec:
             st.heap[name] = (z3.Const('H_' + name, z3.ArraySort(z3.IntSort(), cod[0])), sort_name)
         return st.heap[name]
 
+    def initial_field(self, st, name):
+        tmp = State()
+        return self.field(tmp, name)
+
     def getattr(self, obj, name, st, node):
         if isinstance(obj, ObjRef):
             if ('%s.%s' % (obj.cls, name)) in self.contract.ghosts:
                 return self.contract.ghosts['%s.%s' % (obj.cls, name)](self, st, obj)
+            if ('method:' + name) in self.contract.ghosts:
+                m = self.contract.ghosts['method:' + name]
+                return lambda ex, st2, *a, **k: m(ex, st2, obj, *a, **k)
             arr, sn = self.field(st, name)
             if isinstance(arr, tuple):
                 payload = z3.Select(arr[0], obj.r)
@@ -1505,6 +1535,10 @@ class Exec:
             return v
         if isinstance(obj, Opaque):
             return lib.opaque_attr(obj, name)
+        if isinstance(obj, Record):
+            if name not in obj.attrs:
+                raise Unsupported('attribute %s of record %s' % (name, obj.name))
+            return obj.attrs[name]
         if isinstance(obj, (ArrayVal, NDRef)):
             if name == 'shape':
                 return tuple(obj.shape) if isinstance(obj, ArrayVal) else view_shape(obj)
@@ -1608,6 +1642,8 @@ class Exec:
                 v = self.eval(a.value, st)
                 if isinstance(v, (list, tuple)):
                     args.extend(v)
+                elif 'starcall' in self.contract.ghosts:
+                    return self.contract.ghosts['starcall'](self, st, f, v, node)
                 else:
                     raise Unsupported('star-args of symbolic value')
             else:
@@ -1692,6 +1728,10 @@ class Exec:
 
     def call_opaque(self, qual, args, kwargs, st, node):
         """uninterpreted pure function of its (scalar) arguments"""
+        mdl = self.contract.ghosts.get('opaque_model:' + qual.split('.')[-1])
+        if mdl is not None:
+            self.assumed.append('opaque call: %s modelled by the contract file (pure function of the listed reads)' % qual)
+            return mdl(self, st, args, kwargs)
         self.assumed.append('opaque call: %s is a pure function of its arguments' % qual)
         zargs = []
         for a in list(args) + [kwargs[k] for k in sorted(kwargs)]:
